@@ -545,3 +545,99 @@ def sweep_c14(tier, seed):
                 break
     return {"status": "violation" if viol else "ok", "cases": 2 * n, "distinct": 2 * n, "violations": viol,
             "samples": [{"seed": seed * 3001}], "kind": "bounded-native"}
+
+
+# --------------------------------------------------------------------------------------
+# C15: histories of load() calls
+# --------------------------------------------------------------------------------------
+def history_case(seed, length=3):
+    import contextlib
+    import io
+
+    import numpy as np
+    import osyris
+
+    rw = _writer()
+    rng = random.Random(seed)
+    ndim = 3
+    ncpu = 4
+    levelmin, levelmax = 2, 3
+    hydro_vars = ["density", "pressure"]
+    tmp = tempfile.mkdtemp(prefix="c15_")
+    try:
+        octs = rw.build_tree(ndim, levelmin, levelmax, rng=rng, ncpu=ncpu, variables=hydro_vars)
+        nprng = np.random.default_rng(seed)
+        particles = {c: {"mass": nprng.uniform(1, 2, 5 + c), "identity": (nprng.permutation(100)[: 5 + c] + 100 * c).astype("int32")}
+                     for c in range(1, ncpu + 1)}
+        rw.write_output(tmp, 1, octs, ndim=ndim, ncpu=ncpu, levelmin=levelmin, levelmax=levelmax, hydro_vars=hydro_vars,
+                        ghosts=rw.random_ghosts(octs, ncpu, rng), particles=particles)
+        shapes = {
+            "full": {},
+            "part_only": {"select": ["part"]},
+            "mesh_off": {"select": {"mesh": False}},
+            "mesh_only": {"select": ["mesh"]},
+            "one_var": {"select": {"mesh": ["density"]}},
+            "level_cap": {"select": {"mesh": {"level": lambda l: l <= 2}}},
+            "cpu_list": {"cpu_list": [2, 3]},
+            "position": {"select": {"mesh": {"position_x": lambda x: x < osyris.Array(0.3, unit="cm")}}},
+            "sorted": {"sortby": {"part": "identity"}},
+        }
+        names = list(shapes)
+        hist = [rng.choice(names) for _ in range(length)]
+        quiet = contextlib.redirect_stdout(io.StringIO())
+        with quiet:
+            ds = osyris.RamsesDataset(1, path=tmp)
+            last = {}
+            for h in hist:
+                before = set(ds.keys())
+                ds.load(**shapes[h])
+                fresh = osyris.RamsesDataset(1, path=tmp).load(**shapes[h])
+                for g in fresh.keys():
+                    last[g] = (h, _flat(np, osyris, fresh[g]))
+                meta_fresh = (fresh.meta["ncells"], fresh.meta["nparticles"])
+                produced = set(fresh.keys())
+        desc = {"seed": seed, "history": hist}
+        for g, (h, ref) in last.items():
+            if g not in ds.keys():
+                return {"what": "group %s produced by %s is missing" % (g, h), "input": desc}
+            got = _flat(np, osyris, ds[g])
+            if list(got.keys()) != list(ref.keys()):
+                return {"what": "group %s: variables %s vs fresh %s (last producer %s)" % (g, list(got), list(ref), h), "input": desc}
+            for k in ref:
+                if not _same(np, got[k], ref[k]):
+                    return {"what": "group %s/%s differs from a fresh dataset's result of %s" % (g, k, h), "input": desc}
+        if "mesh" in produced and ds.meta["ncells"] != meta_fresh[0]:
+            return {"what": "meta ncells %s vs fresh %s" % (ds.meta["ncells"], meta_fresh[0]), "input": desc}
+        if "part" in produced and ds.meta["nparticles"] != meta_fresh[1]:
+            return {"what": "meta nparticles %s vs fresh %s" % (ds.meta["nparticles"], meta_fresh[1]), "input": desc}
+        return None
+    finally:
+        shutil.rmtree(tmp, ignore_errors=True)
+
+
+def replay_history(case, model, rec):
+    for s in range(25):
+        try:
+            r = history_case(7000 + s, length=2 if s % 2 else 3)
+        except Exception as e:
+            r = {"what": "exception %r" % (e,), "input": {"seed": 7000 + s}}
+        if r:
+            return {"reproduced": True, "input": r["input"], "observed": r["what"]}
+    return {"reproduced": False}
+
+
+def sweep_c15(tier, seed):
+    n = 20 if tier == "quick" else 400
+    viol = []
+    for k in range(n):
+        try:
+            r = history_case(seed * 5003 + k, length=2 + (k % 2))
+        except Exception as e:
+            import traceback
+
+            r = {"what": "exception %r %s" % (e, traceback.format_exc(limit=3)), "input": {"seed": seed * 5003 + k}}
+        if r:
+            viol.append({"name": "C15.native.history", "input": r["input"], "observed": r["what"]})
+            break
+    return {"status": "violation" if viol else "ok", "cases": n, "distinct": n, "violations": viol,
+            "samples": [{"seed": seed * 5003}], "kind": "bounded-native"}
